@@ -15,6 +15,7 @@ import math
 import torch
 
 from vt import nf
+from vt.cond import Undecided
 from vt.runner import Ob, Refuted
 from vt.scenario import el, scenario_ob
 
@@ -318,7 +319,7 @@ def ob_conjugate_sequence(kind):
     return Ob("C14.conjugate.sequence.%s" % kind, "B", body, clause="real conjugate model, q moved to the posterior between evaluations (bounded)", funcs=FUNCS)
 
 
-def _real_objects_transformed():
+def _real_objects_transformed(naming="unique"):
     """conjugate model expressed through a constraining transform WITH its Jacobian term in the joint (as the CLI builds models):
     z unconstrained, theta = exp(z) (TransformedParameter), theta ~ LogNormal(m0, s0), y_i ~ LogNormal(z, sigma); joint = prior + likelihood +
     log|d theta/dz| (the TransformedParameter itself).  On the z scale this is normal-normal: q = exact posterior Normal(mu_n, tau_n^-1/2)."""
@@ -330,24 +331,26 @@ def _real_objects_transformed():
     y = t64([1.7, 0.4, 2.9, 1.1, 0.8])
     n = y.numel()
     ly = y.log()
+    # naming of the components of the joint: ids are user-chosen strings (or absent): the joint must hold every term whatever they are
+    ids = {"unique": ("theta", "prior", "like", "q"), "anonymous": (None, None, None, None), "same_name": ("theta", "theta", "like", "z")}[naming]
     z = Parameter("z", t64([0.1]))
-    theta = TransformedParameter("theta", z, torch.distributions.ExpTransform())
-    prior = Distribution("prior", torch.distributions.LogNormal, theta, {"loc": Parameter("m0", t64([m0])), "scale": Parameter("s0", t64([s0]))})
-    like = Distribution("like", torch.distributions.LogNormal, Parameter("y", y), {"loc": z, "scale": Parameter("sigma", t64([sigma]))})
+    theta = TransformedParameter(ids[0], z, torch.distributions.ExpTransform())
+    prior = Distribution(ids[1], torch.distributions.LogNormal, theta, {"loc": Parameter("m0", t64([m0])), "scale": Parameter("s0", t64([s0]))})
+    like = Distribution(ids[2], torch.distributions.LogNormal, Parameter("y", y), {"loc": z, "scale": Parameter("sigma", t64([sigma]))})
     joint = JointDistributionModel("joint", [prior, like, theta])
     tau = 1.0 / s0 ** 2 + n / sigma ** 2
     mu = (m0 / s0 ** 2 + float(ly.sum()) / sigma ** 2) / tau
-    q = JointDistributionModel("var", [Distribution("q", torch.distributions.Normal, z, {"loc": Parameter("qm", t64([mu])), "scale": Parameter("qs", t64([1.0 / math.sqrt(tau)]))})])
+    q = JointDistributionModel("var", [Distribution(ids[3], torch.distributions.Normal, z, {"loc": Parameter("qm", t64([mu])), "scale": Parameter("qs", t64([1.0 / math.sqrt(tau)]))})])
     cov = sigma ** 2 * torch.eye(n, dtype=torch.float64) + s0 ** 2 * torch.ones(n, n, dtype=torch.float64)
     logz = float(-ly.sum() + torch.distributions.MultivariateNormal(torch.full((n,), m0, dtype=torch.float64), covariance_matrix=cov).log_prob(ly))
     return joint, q, z, logz
 
 
-def ob_conjugate_transformed(kind):
+def ob_conjugate_transformed(kind, naming="unique"):
     """real objects, model with a constraining transform and its Jacobian term: the objective equals the log marginal on EVERY evaluation
     request (the Jacobian term must be that of the current draw, whoever read the transformed value first)"""
     def body():
-        joint, q, z, logz = _real_objects_transformed()
+        joint, q, z, logz = _real_objects_transformed(naming)
         n = 0
         for samples in ((4,), (3,), (4,)):
             obj = make_objective(kind, q, joint, samples) if n == 0 or True else None
@@ -361,18 +364,61 @@ def ob_conjugate_transformed(kind):
             if abs(v - logz) > 1e-8 * max(1.0, abs(logz)):
                 raise Refuted("%s on the exp-transformed normal-normal model with q = posterior: evaluation %d returns %r, log marginal %r"
                               % (kind, k + 1, v, logz), witness={"objective": kind, "evaluation": k + 1, "value": v, "log_marginal": logz},
-                              replay={"kind": "custom", "contract": "C14", "func": "replay_conjugate_transformed", "args": {"objective": kind}}, confirmed=True)
+                              replay={"kind": "custom", "contract": "C14", "func": "replay_conjugate_transformed", "args": {"objective": kind, "naming": naming}}, confirmed=True)
             if prev is not None and torch.equal(prev, draw):
                 raise Refuted("%s: evaluation %d did not draw fresh samples" % (kind, k + 1), witness={"objective": kind}, confirmed=True)
             prev = draw
             n += 1
         return {"backend": "concrete", "cases": n, "statement": "exp-transformed normal-normal model (Jacobian term in the joint), q = posterior: %d consecutive evaluations equal log Z" % n}
-    return Ob("C14.conjugate.transformed.%s" % kind, "B", body, clause="real conjugate model with a constraining transform and its Jacobian in the joint, repeated evaluation (bounded)", funcs=FUNCS)
+    return Ob("C14.conjugate.transformed.%s%s" % (kind, "" if naming == "unique" else "[ids=%s]" % naming), "B", body, clause="real conjugate model with a constraining transform and its Jacobian in the joint, repeated evaluation (bounded)", funcs=FUNCS)
+
+
+def ob_conjugate_large_data():
+    """data sets large enough that the log marginal likelihood is far below log(smallest normal double) ~ -708 (and positive-large for a
+    sharply peaked one): every objective still equals it (gamma-Poisson with 400 / 3000 observations, q = exact posterior)"""
+    def body():
+        from torchtree.core.parameter import Parameter
+        from torchtree.distributions.distributions import Distribution
+        from torchtree.distributions.joint_distribution import JointDistributionModel
+        t64 = lambda v: torch.tensor(v, dtype=torch.float64)
+        n = 0
+        for N in (400, 3000):
+            g = torch.Generator().manual_seed(N)
+            data = torch.poisson(torch.full((N,), 7.5, dtype=torch.float64), generator=g)
+            a, b = 2.0, 0.5
+            lam = Parameter("lam", t64([5.0]))
+            prior = Distribution("prior", torch.distributions.Gamma, lam, {"concentration": Parameter(None, t64([a])), "rate": Parameter(None, t64([b]))})
+            like = Distribution("like", torch.distributions.Poisson, Parameter("data", data), {"rate": lam})
+            joint = JointDistributionModel("joint", [prior, like])
+            A, B = a + float(data.sum()), b + N
+            q = JointDistributionModel("var", [Distribution("q", torch.distributions.Gamma, lam, {"concentration": Parameter(None, t64([A])), "rate": Parameter(None, t64([B]))})])
+            logz = a * math.log(b) - math.lgamma(a) + math.lgamma(A) - A * math.log(B) - float(torch.lgamma(data + 1).sum())
+            if logz > -750:
+                raise Undecided("the data set is not large enough: log Z = %r" % logz)
+            for kind in ("ELBO", "KLpq", "VR0.5", "CUBO"):
+                obj = make_objective(kind, q, joint, (5,))
+                torch.manual_seed(3)
+                v = float(obj())
+                n += 1
+                if not (v == v) or abs(v - logz) > 1e-8 * abs(logz):
+                    raise Refuted("%s, gamma-Poisson with %d observations, q = posterior: returns %r, log marginal likelihood %r" % (kind, N, v, logz),
+                                  witness={"objective": kind, "observations": N, "value": v, "log_marginal": logz},
+                                  replay={"kind": "custom", "contract": "C14", "func": "replay_conjugate_large_data", "args": {}}, confirmed=True)
+        return {"backend": "concrete", "cases": n, "statement": "%d evaluations on data sets with log Z < -750: every objective equals log Z to 1e-8" % n}
+    return Ob("C14.conjugate.large_data", "B", body, clause="exact at the true posterior also when the log marginal likelihood is below the logarithm of the smallest double (bounded)", funcs=FUNCS)
+
+
+def replay_conjugate_large_data(args):
+    try:
+        ob_conjugate_large_data().fn()
+    except Refuted as e:
+        return False, e.detail
+    return True, "held"
 
 
 def replay_conjugate_transformed(args):
     try:
-        ob_conjugate_transformed(args["objective"]).fn()
+        ob_conjugate_transformed(args["objective"], args.get("naming", "unique")).fn()
     except Refuted as e:
         return False, e.detail
     return True, "held"
@@ -398,6 +444,10 @@ def obligations(tier, seed):
     obs = []
     for kind in ("ELBO", "KLpq", "VR0", "VR0.5", "CUBO"):
         obs.append(ob_conjugate_transformed(kind))
+    for naming in ("anonymous", "same_name"):
+        for kind in ("ELBO", "KLpq"):
+            obs.append(ob_conjugate_transformed(kind, naming))
+    obs.append(ob_conjugate_large_data())
     R = (1, 2, 3) if tier == "quick" else (1, 2, 3, 4, 5)
     kinds = ["ELBO", "KLpq", "VR0", "VR0.5", "CUBO"]
     for kind in kinds:
